@@ -76,6 +76,9 @@ def qop_recipe(q, csys_id, born_atol):
     elif t == "MProcess":
         r["hss"] = [np.array(h) for h in q.hss]
         r["shape"] = list(q.shape)
+        if vars(q).get("_mode_sampling"):
+            seed = vars(q).get("_random_seed_or_generator")
+            r.update(mode_sampling=True, sampling_seed=seed if isinstance(seed, int) else 7, sampling=True)
     else:
         raise TypeError(t)
     return r
@@ -91,7 +94,10 @@ def build_qop(recipe, c_sys):
     if kind == "gate":
         return Gate(c_sys, np.array(recipe["hs"]), **f)
     if kind == "mprocess":
-        return MProcess(c_sys, [np.array(h) for h in recipe["hss"]], shape=tuple(recipe["shape"]), **f)
+        extra = {}
+        if recipe.get("mode_sampling"):
+            extra = {"mode_sampling": True, "random_seed_or_generator": recipe.get("sampling_seed", 7)}
+        return MProcess(c_sys, [np.array(h) for h in recipe["hss"]], shape=tuple(recipe["shape"]), **extra, **f)
     raise ValueError(kind)
 
 
